@@ -228,7 +228,7 @@ func pickI(rng *vh.Rng, xs ...int) int { return xs[rng.Intn(len(xs))] }
 
 func genCfg(rng *vh.Rng, hostile bool) Cfg {
 	c := Cfg{
-		Banks:     pickI(rng, 1, 1, 2, 2, 16, 32, 3),
+		Banks:     pickI(rng, 1, 1, 2, 2, 16, 32, 3, 5, 6, 7, 12, 24, 31, 1+rng.Intn(32), 1+rng.Intn(32), 1+rng.Intn(32)),
 		Width:     pickI(rng, 1, 1, 2),
 		Depth:     pickI(rng, 1, 1, 5, 2),
 		Cps:       pickI(rng, 1, 1, 2, 3),
@@ -251,6 +251,12 @@ func genCfg(rng *vh.Rng, hostile bool) Cfg {
 	} else if rng.Intn(6) == 0 {
 		// the shape the MI300A platform uses: a bank-selection converter only
 		c.BConv = &Ilv{Size: 4096, Total: 4, Index: uint64(rng.Intn(4))}
+	} else if rng.Intn(2) == 0 {
+		// capacities that are not a multiple of the stripe (banks << log2ilv), of
+		// the row, or of the 4 KiB storage unit; the traffic then also goes to the
+		// last bytes of the configured capacity
+		c.Capacity = uint64(pickI(rng, 1<<20, 1<<20, 1<<16, 1<<20+64, 1<<20+4096+192, 3<<18, 100000, 65536+192,
+			1<<20-37, 1<<17+1, 70000+rng.Intn(200000)))
 	}
 	if !hostile {
 		switch rng.Intn(5) {
@@ -286,6 +292,23 @@ func generate(rng *vh.Rng, hostile bool) Case {
 			// stay inside the element the converter belongs to
 			b := c.Cfg.BConv
 			pool[i] = (pool[i]/b.Size*b.Total+b.Index)*b.Size + pool[i]%b.Size
+		}
+	}
+	// the top of the configured capacity: last byte, last 64-byte line, last
+	// interleave unit, around the last stripe boundary, around the last 4 KiB unit
+	topClass := !hostile && c.Cfg.BConv == nil && c.Cfg.Capacity < 1<<32
+	var top []uint64
+	if topClass {
+		capa := c.Cfg.Capacity
+		ilv := uint64(1) << c.Cfg.Log2Ilv
+		stripe := ilv * uint64(c.Cfg.Banks)
+		lastStripe := capa / stripe * stripe
+		top = []uint64{capa - 1, capa - 4, capa - 64, capa - ilv, capa - ilv - 3, lastStripe, lastStripe - 8, lastStripe + ilv - 2,
+			capa / 64 * 64, capa / 4096 * 4096, capa/4096*4096 - 5, capa - uint64(1+rng.Intn(200))}
+		for i := range pool {
+			if rng.Intn(2) == 0 {
+				pool[i] = top[rng.Intn(len(top))]
+			}
 		}
 	}
 	n := 30 + rng.Intn(120)
@@ -332,6 +355,23 @@ func generate(rng *vh.Rng, hostile bool) Case {
 				}
 			}
 		}
+		if !hostile {
+			// protocol-respecting traffic stays inside the configured capacity
+			capa := c.Cfg.Capacity
+			if m.Addr >= capa {
+				m.Addr = capa - 1
+			}
+			room := capa - m.Addr
+			if m.Kind == "KRead" && m.Size > room {
+				m.Size = room
+			}
+			if m.Kind == "KWrite" && uint64(len(m.Data)) > room {
+				m.Data = m.Data[:room]
+				if len(m.Mask) > 0 {
+					m.Mask = m.Mask[:room]
+				}
+			}
+		}
 		if hostile && rng.Intn(50) == 0 {
 			switch rng.Intn(6) {
 			case 0:
@@ -367,7 +407,21 @@ func generate(rng *vh.Rng, hostile bool) Case {
 		if c.Cfg.BConv != nil {
 			stride *= c.Cfg.BConv.Total * c.Cfg.BConv.Size // stays in the same element
 		}
-		p := &vh.Msg{ID: next, Src: m.Src, Dst: pTop, Addr: m.Addr + stride*uint64(1+rng.Intn(3)), Kind: "KRead", Size: 4}
+		d := stride * uint64(1+rng.Intn(3))
+		pa := m.Addr + d
+		if pa+4 > c.Cfg.Capacity { // stay inside the capacity: go down instead of up, or stay
+			switch {
+			case m.Addr >= d:
+				pa = m.Addr - d
+			case m.Addr >= stride:
+				pa = m.Addr - stride
+			case m.Addr+4 <= c.Cfg.Capacity:
+				pa = m.Addr
+			default:
+				pa = 0
+			}
+		}
+		p := &vh.Msg{ID: next, Src: m.Src, Dst: pTop, Addr: pa, Kind: "KRead", Size: 4}
 		next++
 		p.Fix()
 		return p
